@@ -1,6 +1,7 @@
 package main
 
 import (
+	"encoding/json"
 	"fmt"
 	"reflect"
 	"sort"
@@ -127,6 +128,18 @@ func (v *LV) Build(r *Rng) any {
 			return float32(v.F)
 		}
 		return v.F
+	case "jnum":
+		return json.Number(v.S)
+	case "tnil": // typed nils
+		switch v.R {
+		case "slice":
+			return []any(nil)
+		case "map":
+			return map[string]any(nil)
+		case "strptr":
+			return (*string)(nil)
+		}
+		return (*Person)(nil)
 	case "str":
 		switch v.R {
 		case "ptr":
@@ -277,7 +290,9 @@ var words = []string{"a", "b", "c", "apple", "Banana", "cherry", "x y", "√©", "Ê
 	// one word per length 6..13: filters with numeric thresholds (truncate, slice, truncatewords) need inputs on both sides of every threshold
 	// date strings in several of the layouts the library recognises
 	"2017-07-09", "March 3, 2021", "2020-02-29 12:00", "02 Jan 2006", "Mon, 02 Jan 2006 15:04:05 -0700",
-	"abcdef", "seven 7", "eight ch", "123456789", "ten chars.", "hello world", "twelve chars", "one two three"}
+	"abcdef", "seven 7", longWord, longMulti, "eight ch", "123456789", "ten chars.", "hello world", "twelve chars", "one two three"}
+var longWord = strings.Repeat("lorem ipsum dolor sit amet ", 9)
+var longMulti = strings.Repeat("Êó•Êú¨Ë™û„ÅÆ„ÉÜ„Ç≠„Çπ„Éà ", 12)
 var keyWords = []string{"a", "b", "c", "d", "e", "f", "g", "h", "i", "j", "k", "l", "name", "title", "n"}
 
 func genScalar(r *Rng) *LV {
@@ -289,7 +304,11 @@ func genScalar(r *Rng) *LV {
 }
 
 func genScalar1(r *Rng) *LV {
-	switch r.weighted([]int{4, 4, 2, 1, 1, 1}) {
+	switch r.weighted([]int{4, 4, 2, 1, 1, 1, 1, 1}) {
+	case 6:
+		return &LV{T: "jnum", S: pick(r, []string{"12", "3.5", "-7", "1e3", "0"})}
+	case 7:
+		return &LV{T: "tnil", R: pick(r, []string{"slice", "map", "strptr", "struct"})}
 	case 0:
 		return &LV{T: "str", S: pick(r, words), R: pick(r, []string{"", "", "", "ptr"})}
 	case 1:
